@@ -8,21 +8,21 @@ package rotemplate
 
 
 //@ func TextTemplate$1
-//@   props C18
+//@   props C18 C12
 //@   binds v tpl template
 //@   calls Execute String
 //@   params v
 //@   scope buf template tpl v
 //@   maypanic
 //@   track call.Template.Execute call.Buffer.String
-//@   ensures [executes-the-parsed-template-once-on-the-item-and-returns-the-text|C18] trace(call.Template.Execute(tpl, _, v), call.Buffer.String(_)) && result0 == res(call.Buffer.String) && result1 == res(call.Template.Execute)
+//@   ensures [executes-the-parsed-template-once-on-the-item-and-returns-the-text|C18,C12] trace(call.Template.Execute(tpl, _, v), call.Buffer.String(_)) && result0 == res(call.Buffer.String) && result1 == res(call.Template.Execute)
 
 //@ func HTMLTemplate$1
-//@   props C18
+//@   props C18 C12
 //@   binds v tpl template
 //@   calls Execute String
 //@   params v
 //@   scope buf template tpl v
 //@   maypanic
 //@   track call.Template.Execute call.Buffer.String
-//@   ensures [executes-the-parsed-template-once-on-the-item-and-returns-the-text|C18] trace(call.Template.Execute(tpl, _, v), call.Buffer.String(_)) && result0 == res(call.Buffer.String) && result1 == res(call.Template.Execute)
+//@   ensures [executes-the-parsed-template-once-on-the-item-and-returns-the-text|C18,C12] trace(call.Template.Execute(tpl, _, v), call.Buffer.String(_)) && result0 == res(call.Buffer.String) && result1 == res(call.Template.Execute)
